@@ -31,6 +31,15 @@ def run(c):
         if drv:
             for stream, ps in sorted(pairs.items()):
                 pc.correspond(c, stream, drv, ps)
+        enc = pairs.get("enc", [])
+        c.coverage["canonical_checked"] = {
+            "what": "for every graph of stream enc the driver evaluated Graph.canonical (encoder-independent walk, C07_total), "
+                    "heap.keysOK and sizesOK before encoding; a graph failing any of them answers not-canonical / "
+                    "outside-hypotheses and shows up as a disagreement of stream enc",
+            "graphs": len(enc), "encoded_by_go": sum(1 for _, g in enc if g.startswith("ok ")),
+            "go_error_no_pickler": sum(1 for _, g in enc if g == "err"),
+            "by_class": {k[6:]: v for k, v in stats.items() if k.startswith("class.") and not k.startswith("class.cycle-")},
+            "cycle_family_graphs": sum(v for k, v in stats.items() if k.startswith("class.cycle-"))}
         c.count("rt.judge", stats.get("rt.judged", 0),
                 sample={"judge": "canonical dump of Decode(Encode(v)) == canonical dump of v (types, contents, order, aliasing of "
                                  "containers and host objects)", "evaluations": stats.get("rt.judged", 0)},
